@@ -6,20 +6,26 @@ import os
 
 PROPERTIES = ['C04', 'C02']
 BOUNDS = {
-    'quick': 'char: capacities 1, 7 (tiny layout, size kept in the last byte), 15 (largest tiny), 16 (first with a size field); char16_t: capacities 7 and 16. '
-             'Pre-sizes {0, cap/2, cap} (all for cap 1); second operand lengths {0, 1, exact fit, one more than fits} for mutators and {0, 1, 2} for searches/comparisons. '
-             'All characters (also those left behind the terminator of the pre-state), every pos/count/index argument symbolic over the full 64-bit range, '
-             'restricted only by the documented precondition. One query per (operation, CH, CAP, N, M).',
-    'thorough': 'char, wchar_t, char8_t, char16_t, char32_t; capacities 0, 1, 7 (all pre-sizes and all operand lengths for char at 7), 15, 16, 31 with pre-sizes {0, 1, cap/2, cap-1, cap}; '
-                'capacities 255 and 256 (char) for the operations without a rotate, pre-sizes {0, cap-1, cap}.',
+    'quick': 'char: capacity 1 (all pre-sizes) and 7 (pre-sizes 0, 3, 7; tiny layout, size kept in the last byte), 16 (first capacity with a size field; pre-sizes 0, 8, 16) and 15 (largest tiny; pre-sizes 7, 15); '
+             'char16_t: capacities 7 and 16, one interior pre-size. Second operand lengths {1, exact fit, one more than fits, capacity} for mutators, {1, 2} for searches/comparisons. '
+             'All characters (also those left behind the terminator of the pre-state) and every pos/count/index argument are symbolic over the full 64-bit range, restricted only by the documented precondition; '
+             'one query per (operation, CH, CAP, N, M). At capacities >= 15 the rotate-based operations (insert*, erase*, etl::erase/erase_if) and the sub-range replaces run with a fully symbolic position '
+             'from pre-size 3 and with an enumerated tail position (P_) from the long/full pre-states; needle searches run on haystacks <= 4 there. '
+             'Contract-checked build (cfg CHK): every mutator and element access at capacity 7, char.',
+    'thorough': 'char: capacity 0, 1, 7 with every pre-size 0..cap and operand lengths {0, 1, exact fit, one more}; 15 and 16 with pre-sizes {0, 1, cap/2, cap-1, cap} and enumerated positions {0.., middle, tail} for the rotate-based operations; '
+                '31 (pre-sizes 15, 31); 255 and 256 (size field 8 -> 16 bit; pre-sizes 0, cap-1, cap; no rotate-based operations and no needle searches). '
+                'wchar_t, char16_t: capacities 0, 1, 7, 15, 16, 31; char8_t, char32_t: capacities 0, 1, 7, 16. Contract-checked build at capacities 7 and 16 (char).',
 }
 ASSUMPTIONS = [
-    'C04: positions that make std::basic_string throw out_of_range (pos > size(), pos2 > str.size()) are excluded; ptr+count overloads get a block of M characters and count <= M; C-string overloads get exactly M non-zero characters and a terminator',
-    'C04: documented tetl preconditions are assumed: ctor/assign(count, ...) count <= capacity, push_back on a non-full string, pop_back/front/back on a non-empty string',
-    'C04: when the std result would not fit in the capacity only size() <= capacity() and data()[size()] == 0 are required (the property says so); insert(index, count, ch) is only called with results that fit (tetl loops count times)',
-    'C04: the pre-state is installed through the public API (S(ptr, CAP) then resize(N)) and checked before the operation; the bytes behind the terminator are symbolic',
-    'C04: rfind(ptr,pos,count) is not instantiable (calls a strings::rfind overload that does not exist) and replace(...,Char const*) only compiles for char after <etl/cstring.hpp>: the first has no query, the second is built with that include (cfg HAVE_REPL_CS)',
-    'C04: mutator oracle = sequence model harness/istr_step/model.h, validated natively against std::basic_string by validate_model.cpp (run by spec.py, see validate())',
+    'C04: positions that make std::basic_string throw out_of_range (pos > size(), pos2 > str.size()) are excluded; ptr+count overloads get a block of exactly M characters and count <= M; C-string overloads get exactly M non-zero characters and a terminator',
+    'C04: documented tetl preconditions are assumed: ctor/assign(count, ...) count <= capacity, push_back on a non-full string, pop_back/front/back on a non-empty string; second operands have at most capacity characters',
+    'C04: when the std result would not fit in the capacity only size() <= capacity() and data()[size()] == 0 are required (the property says so); insert(index, count, ch) is only called with results that fit and from pre-sizes >= capacity-3 (tetl rotates once per inserted character)',
+    'C04: the pre-state is installed through the public API (S(ptr, CAP) then resize(N)) and checked before the operation; the characters behind the terminator are symbolic',
+    'C04: rfind(ptr,pos,count) cannot be instantiated (it calls a strings::rfind overload that does not exist) and replace(..., Char const*) only compiles for char and only after <etl/cstring.hpp> (unqualified strlen): the first has no query, the second is built with that include (cfg HAVE_REPL_CS)',
+    'C04: insert(const_iterator, ...) overloads and replace(pos, count, count2, ch) are commented out in tetl: no query; operator+ has no rvalue overloads in tetl',
+    'C04: mutator oracle = sequence model harness/istr_step/model.h; spec.py compiles validate_model.cpp with g++ and compares the model with std::basic_string on 242 000 random operations before every C04 run (failure aborts the check)',
+    'C04: cfg CHK builds the kernel with TETL_ENABLE_CONTRACT_CHECKS and a custom assert handler; a fired check on a call that std::basic_string accepts and whose result fits is reported as a failed obligation',
+    'C04: out-of-range pointers that are formed but not dereferenced are outside the claim (CBMC pointer encoding); replace(pos,count,str) forms data()+pos+count unclamped and is excluded for count > capacity+1-pos as part of finding C04_replace_keeps_size',
 ]
 _here = os.path.dirname(os.path.abspath(__file__))
 SRCH = ['find', 'rfind', 'ffo', 'ffno', 'flo', 'flno']
@@ -64,14 +70,19 @@ def open_findings():
 USES_P = ['erase_pc', 'erase_p', 'erase_it', 'erase_itit', 'insert_nc', 'insert_self'] + ['insert_cs', 'insert_pc', 'insert_s', 'insert_spc', 'insert_sp', 'insert_v', 'insert_vpc', 'insert_vp']
 
 
-def mkq(e, ch, cap, n, m, ub, extra=None, budget=120, p=None):
+def INST(cap):
+    # loops that install and check the pre-state (numbering differs between the plain and the UB-instrumented build: name them all)
+    return {'%s.%d' % (f, i): cap + 3 for f in ('D__ZL4mk_nm', 'k_install') for i in range(4)}
+
+
+def mkq(e, ch, cap, n, m, ub, extra=None, budget=240, p=None):
     cfg = {'CH': ch, 'CAP': cap, 'N_': n, 'M_': m}
     if ch == 'char':
         cfg['HAVE_REPL_CS'] = 1
     if extra:
         cfg.update(extra)
     big = (cap + 3) * CSZ[ch] + 16
-    rot = (cap if e in ('insert_nc', 'insert_self') else min(n + m, cap)) - (p or 0) + 3     # etl::rotate: TRE turns the recursion into an outer loop; both loops are bounded by the number of rotated characters
+    rot = (cap if e == 'insert_nc' else min(2 * n, cap) if e == 'insert_self' else min(n + m, cap)) - (p or 0) + 3     # etl::rotate: TRE turns the recursion into an outer loop; both loops are bounded by the number of rotated characters
     rname = 'K__ZN3etl6rotateIP%sEET_S2_S2_S2_' % MANGLE[ch]
     unwind = cap + 4
     inst = {}
@@ -79,7 +90,12 @@ def mkq(e, ch, cap, n, m, ub, extra=None, budget=120, p=None):
         # searches / comparisons only walk the N resp. M characters of their operands; only the loops that install the
         # pre-state run over the whole capacity (a too small bound is reported by the unwinding assertions, never hidden)
         unwind = max(n, m) + 3
-        inst = {'D__ZL4mk_nm.0': cap + 3, 'D__ZL4mk_nm.1': cap + 3, 'k_install.0': cap + 3}
+        inst = dict(INST(cap))
+    if e == 'insert_nc':
+        inst['k_insert_nc.0'] = cap - n + 2     # one rotate per inserted character: the count loop is bounded by the free space
+    if e in ('erase_val', 'erase_if'):
+        unwind = n + 3
+        inst.update(INST(cap))
     return dict(entry='q_' + e, cfg=cfg, unwind=unwind,
                 unwindset={**inst, 'll_memcpy.0': big, 'll_memmove.0': big, 'll_memmove.1': big, 'll_memset.0': big, 'll_undef_bytes.0': 40, rname + '.0': rot, rname + '.1': rot},
                 budget=budget, ub=ub, nofunc=ub, solver=os.environ.get('C04_SOLVER', 'minisat'))
@@ -91,7 +107,7 @@ HEAVY_RFIND = ['rfind_s', 'rfind_cs', 'rfind_s0', 'rfind_cs0']   # find_end with
 def applicable(e, ch, cap, n, m, tier='quick'):
     if e in HEAVY_RFIND and n > (4 if tier == 'quick' else 7):
         return False
-    if e == 'insert_nc' and n < cap - (2 if tier == 'quick' else 3):
+    if e == 'insert_nc' and n < cap - ((2 if ch == 'char' else 1) if tier == 'quick' else 3):
         return False     # tetl's insert(index, count, ch) rotates once per character: count <= capacity - N is kept small
     if e in CHAR_ONLY and ch != 'char':
         return False
@@ -128,7 +144,7 @@ def plan(profile, cap):
         return dict(one=[0, 1], one_rot=[(0, S), (1, S)], mut=prs, heavy=prs, rot2=[(n, m, S) for n, m in prs], sr=[(0, 1), (1, 1)] + ([(1, 0), (0, 0)] if profile == 'all' else []), src=[0, 1])
     if cap <= 8:    # positions, counts and contents fully symbolic from every listed pre-size
         if profile == 'light':      # one interior pre-state: exact fit and first overflow
-            ns, prs, sr, src = [mid], [(mid, cap - mid), (mid, cap - mid + 1)], [(mid, 2)], [cap]
+            ns, prs, sr, src = [mid], [(mid, 1), (mid, cap - mid), (mid, cap - mid + 1)], [(mid, 2)], [cap]
         elif profile == 'full':
             ns, prs, sr, src = [0, mid, cap], [(0, cap), (mid, 1), (mid, cap - mid), (mid, cap - mid + 1), (cap, 1)], [(0, 1), (mid, 1), (mid, 2), (cap, 1)], [0, 1, cap]
         elif profile == 'all':      # every pre-size; operand lengths 0, 1, 2 and around the fit boundary; searches up to 3 and cap
@@ -167,6 +183,7 @@ def queries(tier, prop='C04'):
     ub = prop == 'C02'
     if prop == 'C04':
         validate()
+    tier = 'quick' if tier.startswith('quick') else 'thorough'
     combos = QUICK if tier == 'quick' else THOROUGH
     if ub:
         combos = QUICK_C02 if tier == 'quick' else QUICK
@@ -180,8 +197,10 @@ def queries(tier, prop='C04'):
         if not applicable(e, ch, cap, n, m, tier):
             return
         if cap >= 15 and n > 4:
-            if e in ONE_HEAVY or (e in SEARCH_LIKE and e not in CHEAP_SRCH):
+            if e in ONE_HEAVY or (e in SEARCH_LIKE and (e not in CHEAP_SRCH or ch != 'char')):
                 return
+        if tier == 'quick' and n > 4 and e in ('erase_val', 'erase_if'):
+            return    # remove + rotate with a symbolic split point: 40-80 s from 7 characters on
         if chk and e in ('append_it', 'append_s', 'pluseq_s', 'append_self') and n + (n if e == 'append_self' else m) > cap:
             return    # these append with push_back, whose documented precondition is size() < capacity()
         key = (e, ch, cap, n, m, p, chk)
@@ -223,11 +242,15 @@ def queries(tier, prop='C04'):
         for n in pl['one']:
             for e in ONE_MUT + ONE_SRCH:
                 add(e, ch, cap, n, 0)
+        if cap >= 15 and not huge:
+            for e in ONE_SRCH:
+                add(e, ch, cap, 3, 0)
         for n, p in pl['one_rot']:
             for e in ONE_ROT:
                 add(e, ch, cap, n, 0, p)
         if not huge and cap >= 2:
-            add('insert_nc', ch, cap, cap - 2, 0, None if cap <= 8 else cap - 2)
+            nn = cap - 2 if ch == 'char' else cap - 1
+            add('insert_nc', ch, cap, nn, 0, None if cap <= 8 else nn)
         for n, m in pl['mut']:
             for e in TWO_MUT_LIGHT:
                 add(e, ch, cap, n, m)
